@@ -489,5 +489,219 @@ impl<'a> Page<'a> {
 //@end
 }
 
+// ================================================================== view lemmas for page updates
+/// bytes from `off` on unchanged  ==>  the leaf cell at `off` reads the same
+pub proof fn lemma_cell_frame(b0: Seq<u8>, b1: Seq<u8>, off: int)
+    requires b0.len() == 8192, b1.len() == 8192, 0 <= off < 8192, forall|j: int| off <= j < 8192 ==> b1[j] == b0[j],
+    ensures lc_ok(b1, off) == lc_ok(b0, off), lc_vlen(b1, off) == lc_vlen(b0, off), lc_klen(b1, off) == lc_klen(b0, off),
+        lc_ok(b0, off) ==> lc_key(b1, off) == lc_key(b0, off) && lc_payload(b1, off) == lc_payload(b0, off),
+{
+    assert(b1.skip(off) =~= b0.skip(off));
+    if lc_ok(b0, off) {
+        axiom_vdec_bounds(b0.skip(off));
+        assert(lc_key(b1, off) =~= lc_key(b0, off));
+        assert(b1.subrange(lc_end(b0, off) - 8, lc_end(b0, off)) =~= b0.subrange(lc_end(b0, off) - 8, lc_end(b0, off)));
+    }
+}
+/// the two slot bytes unchanged (and the kind byte)  ==>  the slot reads the same
+pub proof fn lemma_slot_same(b0: Seq<u8>, b1: Seq<u8>, i: int, k: int)
+    requires b0.len() == 8192, b1.len() == 8192, b1[4] == b0[4], 0 <= i, 0 <= k, pg_hdr(b0) + 2 * i + 2 <= 8192, pg_hdr(b0) + 2 * k + 2 <= 8192,
+        b1[pg_hdr(b0) + 2 * i] == b0[pg_hdr(b0) + 2 * k], b1[pg_hdr(b0) + 2 * i + 1] == b0[pg_hdr(b0) + 2 * k + 1],
+    ensures pg_slot(b1, i) == pg_slot(b0, k),
+{
+    let h = pg_hdr(b0);
+    assert(b1.subrange(h + 2 * i, h + 2 * i + 2) =~= b0.subrange(h + 2 * k, h + 2 * k + 2));
+}
+
+/// C26.page.delete.view — removing slot `idx` (slots shifted left, count decremented) removes exactly
+/// entry `idx` of the abstract view and keeps the page well formed.
+pub proof fn lemma_delete_view(b0: Seq<u8>, b1: Seq<u8>, b2: Seq<u8>, idx: int)
+    requires leaf_wf(b0), 0 <= idx < pg_count(b0), b1.len() == 8192, b2.len() == 8192,
+        b1.subrange(24 + 2 * idx, 24 + 2 * pg_count(b0) - 2) == b0.subrange(24 + 2 * idx + 2, 24 + 2 * pg_count(b0)),
+        forall|j: int| 0 <= j < 8192 && !(24 + 2 * idx <= j < 24 + 2 * pg_count(b0) - 2) ==> #[trigger] b1[j] == b0[j],
+        b2.subrange(6, 8) == le16((pg_count(b0) - 1) as u16),
+        forall|j: int| 0 <= j < 8192 && !(6 <= j < 8) ==> #[trigger] b2[j] == b1[j],
+    ensures leaf_wf(b2), leaf_cells(b2) == leaf_cells(b0).remove(idx),
+{
+    let c = pg_count(b0);
+    lemma_le16_len((c - 1) as u16);
+    assert(b2.subrange(0, 4) =~= b0.subrange(0, 4));
+    assert(b2.subrange(8, 10) =~= b0.subrange(8, 10));
+    assert(pg_count(b2) == c - 1);
+    assert(pg_begin(b2) == pg_begin(b0));
+    assert forall|i: int| 0 <= i < c - 1 implies
+        pg_slot(b2, i) == pg_slot(b0, if i < idx { i } else { i + 1 }) by {
+        let k = if i < idx { i } else { i + 1 };
+        if i >= idx {
+            let x = b1.subrange(24 + 2 * idx, 24 + 2 * c - 2); let y = b0.subrange(24 + 2 * idx + 2, 24 + 2 * c);
+            assert(x[2 * (i - idx)] == y[2 * (i - idx)]);
+            assert(x[2 * (i - idx) + 1] == y[2 * (i - idx) + 1]);
+        }
+        lemma_slot_same(b0, b2, i, k);
+    }
+    assert forall|i: int| 0 <= i < pg_count(b2) implies pg_begin(b2) <= #[trigger] pg_slot(b2, i) && lc_ok(b2, pg_slot(b2, i)) by {
+        let k = if i < idx { i } else { i + 1 };
+        assert(pg_begin(b0) <= pg_slot(b0, k) && lc_ok(b0, pg_slot(b0, k)));
+        lemma_cell_frame(b0, b2, pg_slot(b0, k));
+    }
+    assert forall|i: int| 0 <= i < c - 1 implies #[trigger] leaf_cells(b2)[i] == leaf_cells(b0).remove(idx)[i] by {
+        let k = if i < idx { i } else { i + 1 };
+        assert(pg_begin(b0) <= pg_slot(b0, k) && lc_ok(b0, pg_slot(b0, k)));
+        lemma_cell_frame(b0, b2, pg_slot(b0, k));
+    }
+    assert(leaf_cells(b2) =~= leaf_cells(b0).remove(idx));
+}
+
+impl<'a> Page<'a> {
+// C26.page.delete_from_leaf.spec — whole view, not just the touched cell.
+//@extract nervusdb-storage/src/index/btree.rs Page::delete_from_leaf ret r
+//@| requires leaf_wf(old(self).b()),
+//@| ensures r is Ok <==> idx < pg_count(old(self).b()),
+//@|     r is Err ==> final(self).b() == old(self).b(),
+//@|     r is Ok ==> leaf_wf(final(self).b()) && leaf_cells(final(self).b()) == leaf_cells(old(self).b()).remove(idx as int),
+//@proof after 1 "self.shift_slots_left(idx)?;" raw
+//@| let ghost b1 = self.b();
+//@proof before 1 "=Ok(())"
+//@| lemma_delete_view(old(self).b(), b1, self.b(), idx as int);
+//@end
+}
+
+/// C26.page.insert.view — the byte-level effect of leaf_insert_at (new cell written just below the old
+/// content area, slots from idx shifted right, slot idx pointing at the new cell, count + 1) inserts
+/// exactly the entry (key, payload) at position idx of the abstract view and keeps the page well formed.
+pub proof fn lemma_insert_view(b0: Seq<u8>, b: Seq<u8>, idx: int, key: Seq<u8>, payload: u64)
+    requires leaf_wf(b0), 0 <= idx <= pg_count(b0), key.len() <= u32::MAX, b.len() == 8192,
+        24 + 2 * pg_count(b0) + 2 + vlen(key.len() as u32) + key.len() + 8 <= pg_begin(b0),
+        forall|j: int| (0 <= j < 6 || 10 <= j < 24 + 2 * idx || pg_begin(b0) <= j < 8192) ==> #[trigger] b[j] == b0[j],
+        b.subrange(6, 8) == le16((pg_count(b0) + 1) as u16),
+        b.subrange(8, 10) == le16((pg_begin(b0) - (vlen(key.len() as u32) + key.len() + 8)) as u16),
+        b.subrange(24 + 2 * idx, 24 + 2 * idx + 2) == le16((pg_begin(b0) - (vlen(key.len() as u32) + key.len() + 8)) as u16),
+        b.subrange(24 + 2 * idx + 2, 24 + 2 * pg_count(b0) + 2) == b0.subrange(24 + 2 * idx, 24 + 2 * pg_count(b0)),
+        b.subrange(pg_begin(b0) - (vlen(key.len() as u32) + key.len() + 8), pg_begin(b0)) == venc(key.len() as u32) + key + le64(payload),
+    ensures leaf_wf(b), leaf_cells(b) == leaf_cells(b0).insert(idx, (key, payload)),
+{
+    let c = pg_count(b0);
+    let bg = pg_begin(b0);
+    let kl = key.len() as u32;
+    let vl = vlen(kl);
+    let co = bg - (vl + key.len() + 8);
+    lemma_le16_len((c + 1) as u16);
+    lemma_le16_len(co as u16);
+    lemma_venc_len(kl);
+    lemma_le64_len(payload);
+    assert(b.subrange(0, 4) =~= b0.subrange(0, 4));
+    assert(pg_count(b) == c + 1);
+    assert(pg_begin(b) == co);
+    // the new cell
+    let cell = venc(kl) + key + le64(payload);
+    assert(b.skip(co) =~= venc(kl) + (key + le64(payload) + b.skip(bg))) by {
+        let x = b.subrange(co, bg);
+        assert forall|j: int| 0 <= j < 8192 - co implies #[trigger] b.skip(co)[j] == (venc(kl) + (key + le64(payload) + b.skip(bg)))[j] by {
+            if j < bg - co { assert(x[j] == cell[j]); }
+        }
+    }
+    axiom_vdec_roundtrip(kl, key + le64(payload) + b.skip(bg));
+    assert(lc_vlen(b, co) == vl && lc_klen(b, co) == key.len());
+    assert(lc_end(b, co) == bg);
+    assert(lc_key(b, co) =~= key) by {
+        let x = b.subrange(co, bg);
+        assert forall|j: int| 0 <= j < key.len() implies #[trigger] lc_key(b, co)[j] == key[j] by { assert(x[vl + j] == cell[vl + j]); }
+    }
+    assert(b.subrange(bg - 8, bg) =~= le64(payload)) by {
+        let x = b.subrange(co, bg);
+        assert forall|j: int| 0 <= j < 8 implies #[trigger] b.subrange(bg - 8, bg)[j] == le64(payload)[j] by { assert(x[vl + key.len() + j] == cell[vl + key.len() + j]); }
+    }
+    assert(lc_payload(b, co) == payload);
+    // the slots
+    assert(pg_slot(b, idx) == co);
+    assert forall|i: int| 0 <= i < c + 1 && i != idx implies pg_slot(b, i) == pg_slot(b0, if i < idx { i } else { i - 1 }) by {
+        let k = if i < idx { i } else { i - 1 };
+        if i > idx {
+            let x = b.subrange(24 + 2 * idx + 2, 24 + 2 * c + 2); let y = b0.subrange(24 + 2 * idx, 24 + 2 * c);
+            assert(x[2 * (i - idx - 1)] == y[2 * (i - idx - 1)]);
+            assert(x[2 * (i - idx - 1) + 1] == y[2 * (i - idx - 1) + 1]);
+        }
+        lemma_slot_same(b0, b, i, k);
+    }
+    assert forall|i: int| 0 <= i < pg_count(b) implies pg_begin(b) <= #[trigger] pg_slot(b, i) && lc_ok(b, pg_slot(b, i)) by {
+        if i != idx {
+            let k = if i < idx { i } else { i - 1 };
+            assert(pg_begin(b0) <= pg_slot(b0, k) && lc_ok(b0, pg_slot(b0, k)));
+            lemma_cell_frame(b0, b, pg_slot(b0, k));
+        }
+    }
+    assert forall|i: int| 0 <= i < c + 1 implies #[trigger] leaf_cells(b)[i] == leaf_cells(b0).insert(idx, (key, payload))[i] by {
+        if i != idx {
+            let k = if i < idx { i } else { i - 1 };
+            assert(pg_begin(b0) <= pg_slot(b0, k) && lc_ok(b0, pg_slot(b0, k)));
+            lemma_cell_frame(b0, b, pg_slot(b0, k));
+        }
+    }
+    assert(leaf_cells(b) =~= leaf_cells(b0).insert(idx, (key, payload)));
+}
+
+impl<'a> Page<'a> {
+// C26.page.leaf_insert_at.spec — whole view: Ok inserts exactly (key, payload) at idx and keeps the page
+// well formed; Err leaves the page bytes unchanged; it succeeds exactly when the position is valid and
+// the cell and its slot fit into the free space.
+//@extract nervusdb-storage/src/index/btree.rs Page::leaf_insert_at ret r
+//@| requires leaf_wf(old(self).b()), key@.len() <= 0x7fff_ffff_ffff_ffff,
+//@| ensures r is Err ==> final(self).b() == old(self).b(),
+//@|     r is Ok ==> leaf_wf(final(self).b()) && leaf_cells(final(self).b()) == leaf_cells(old(self).b()).insert(idx as int, (key@, payload)),
+//@|     r is Ok <==> key@.len() <= u32::MAX && idx <= pg_count(old(self).b())
+//@|         && 24 + 2 * pg_count(old(self).b()) + 2 + vlen(key@.len() as u32) + key@.len() + 8 <= pg_begin(old(self).b()),
+//@prewrite "&mut self.buf[cell_off..cell_off + var_len]" => "v_arr_range_mut(self.buf, cell_off, cell_off + var_len)"
+//@prewrite "self.buf[key_start..key_start + key.len()].copy_from_slice(key);" => "v_copy_from_slice(v_arr_range_mut(self.buf, key_start, key_start + key.len()), key);"
+//@prewrite "debug_assert_eq!(wrote, var_len);" => "assert(wrote == var_len);"
+//@proof after 1 "self.set_cell_content_begin(new_begin);" raw
+//@| let ghost s1 = self.b();
+//@proof before 1 "let key_start = cell_off + var_len;" raw
+//@| let ghost s2 = self.b();
+//@| proof {
+//@|     lemma_venc_len(key_len);
+//@|     assert(s2.subrange(cell_off as int, cell_off + var_len) =~= venc(key_len));
+//@|     assert forall|j: int| 0 <= j < 8192 && !(cell_off <= j < cell_off + var_len) implies #[trigger] s2[j] == s1[j] by {}
+//@| }
+//@proof before 1 "write_u64_le(self.buf, key_start + key.len(), payload);" raw
+//@| let ghost s3 = self.b();
+//@| proof {
+//@|     assert(s3.subrange(key_start as int, key_start + key@.len()) =~= key@);
+//@|     assert forall|j: int| 0 <= j < 8192 && !(key_start <= j < key_start + key@.len()) implies #[trigger] s3[j] == s2[j] by {}
+//@| }
+//@proof before 1 "self.shift_slots_right(idx)?;" raw
+//@| let ghost s4 = self.b();
+//@| proof {
+//@|     assert(pg_kind_ok(s4)) by { assert(s4.subrange(0, 4) =~= old(self).b().subrange(0, 4)); }
+//@|     assert(pg_count(s4) == count) by { assert(s4.subrange(6, 8) =~= old(self).b().subrange(6, 8)); }
+//@| }
+//@proof before 1 "self.slot_set(idx, cell_off)?;" raw
+//@| let ghost s5 = self.b();
+//@| proof { assert(pg_kind_ok(s5)) by { assert(s5.subrange(0, 4) =~= old(self).b().subrange(0, 4)); } }
+//@proof before 1 "self.set_cell_count(count + 1);" raw
+//@| let ghost s6 = self.b();
+//@proof before 1 "=Ok(())"
+//@| let b0 = old(self).b(); let b = self.b(); let bg = pg_begin(b0);
+//@| lemma_le64_len(payload);
+//@| assert(b.subrange(8, 10) =~= s1.subrange(8, 10));
+//@| assert(b.subrange(24 + 2 * idx, 24 + 2 * idx + 2) =~= s6.subrange(24 + 2 * idx, 24 + 2 * idx + 2));
+//@| assert(b.subrange(24 + 2 * idx + 2, 24 + 2 * count + 2) =~= b0.subrange(24 + 2 * idx, 24 + 2 * count)) by {
+//@|     let x = s5.subrange(24 + 2 * idx + 2, 24 + 2 * count + 2); let y = s4.subrange(24 + 2 * idx, 24 + 2 * count);
+//@|     assert forall|j: int| 0 <= j < 2 * (count - idx) implies #[trigger] b.subrange(24 + 2 * idx + 2, 24 + 2 * count + 2)[j] == b0.subrange(24 + 2 * idx, 24 + 2 * count)[j] by {
+//@|         assert(x[j] == y[j]);
+//@|     }
+//@| }
+//@| assert(b.subrange(cell_off as int, bg) =~= venc(key_len) + key@ + le64(payload)) by {
+//@|     let v = s2.subrange(cell_off as int, cell_off + var_len); let k = s3.subrange(key_start as int, key_start + key@.len());
+//@|     let p = s4.subrange(key_start + key@.len(), key_start + key@.len() + 8);
+//@|     assert forall|j: int| 0 <= j < bg - cell_off implies #[trigger] b.subrange(cell_off as int, bg)[j] == (venc(key_len) + key@ + le64(payload))[j] by {
+//@|         if j < var_len { assert(v[j] == venc(key_len)[j]); }
+//@|         else if j < var_len + key@.len() { assert(k[j - var_len] == key@[j - var_len]); }
+//@|         else { assert(p[j - var_len - key@.len()] == le64(payload)[j - var_len - key@.len()]); }
+//@|     }
+//@| }
+//@| lemma_insert_view(b0, b, idx as int, key@, payload);
+//@end
+}
+
 } // verus!
 fn main() {}
